@@ -145,3 +145,46 @@ def arithmetic_ops(b):
 def describe(items):
     return ["%s%s:%s" % ({"once": "", "loop": "*", "cond": "?"}[i["mod"]], ".".join(i["path"]) if i.get("path") else tstr(i.get("recv", ("?",)))[:40],
                           i["ty"]) for i in items]
+
+
+def subst_params(t, args):
+    """Rewrites a callee-vocabulary term into the caller's: ('param', i, _) -> args[i]."""
+    if not isinstance(t, tuple) or not t:
+        return t
+    if isinstance(t[0], str):
+        if t[0] == "param" and t[1] < len(args):
+            return args[t[1]]
+        if t[0] == "call":
+            return (t[0], t[1], tuple(subst_params(x, args) for x in t[2])) + t[3:]
+        if t[0] == "adt":
+            return t[:4] + (tuple(subst_params(x, args) for x in t[4]),)
+        return tuple(subst_params(x, args) if isinstance(x, tuple) else x for x in t)
+    return tuple(subst_params(x, args) for x in t)
+
+
+def effective_calls(F, b, pred, depth=1):
+    """Calls matching `pred` made by `b` directly or through a crate-local helper it calls (one level, arguments substituted).
+    Each: {name, args, facts, mod, order, sp, via}. `facts` are the comparison facts guarding the call, in b's vocabulary."""
+    from guards import facts_at
+    av = avoid_blocks(b)
+    order = rpo(b)
+    out = []
+    for bi, t in b.calls():
+        if bi in av:
+            continue
+        n = callee_name(t)
+        w = callee_written(t)
+        args = [b.term_of_operand(a) for a in t["args"]]
+        if pred(n) or pred(w):
+            out.append({"name": n, "args": args, "facts": facts_at(b, bi), "mod": modifier(b, bi, av), "order": (order.get(bi, 1 << 30), 0), "sp": t["sp"], "via": None})
+        elif depth > 0 and F.has_body(n) and not t["callee"].get("trait") and n != b.name:
+            cb = F.body(n)
+            outer_mod = modifier(b, bi, av)
+            outer_facts = facts_at(b, bi)
+            for e in effective_calls(F, cb, pred, depth - 1):
+                facts = list(outer_facts) + [tuple(subst_params(x, args) if isinstance(x, tuple) else x for x in f) for f in e["facts"]]
+                mod = e["mod"] if outer_mod == "once" else outer_mod
+                out.append({"name": e["name"], "args": [subst_params(a, args) for a in e["args"]], "facts": facts, "mod": mod,
+                            "order": (order.get(bi, 1 << 30), e["order"]), "sp": e["sp"], "via": n})
+    out.sort(key=lambda x: (x["order"][0], str(x["order"][1])))
+    return out
